@@ -216,11 +216,286 @@ static void mode_gen(int argc, char **argv) {
     }
 }
 
+/* ------------------------------------------------------------------ body mode (C06) --------- */
+static struct { int txi; int side; const uint8_t *body; size_t n; int64_t mlmin, mlmax; const char *desc; } BT;
+static void body_inspect(htp_connp_t *c, hx_obs *o, void *ctx) {
+    (void) ctx;
+    size_t n = htp_list_size(c->conn->transactions);
+    if (n != 2) { hx_verdict_add("C06", "next_message", "%s: 2 exchanges were sent, %zu transactions reported (bytes after the body did not start the next message)", BT.desc, n); return; }
+    htp_tx_t *t0 = htp_list_get(c->conn->transactions, 0), *t1 = htp_list_get(c->conn->transactions, 1);
+    if (!t0 || !t1) return;
+    htp_tx_t *tb = BT.txi ? t1 : t0;
+    int o0 = (int) (intptr_t) htp_tx_get_user_data(tb) - 1;
+    if (o0 < 0 || o0 >= o->ntx) return;
+    const hx_txrec *r = &o->tx[o0];
+    int s = BT.side;
+    if (r->body[s].n != BT.n || (BT.n && memcmp(r->body[s].p, BT.body, BT.n))) {
+        static hx_buf e; hb_reset(&e); hb_esc(&e, r->body[s].p, r->body[s].n > 80 ? 80 : r->body[s].n); hb_term(&e);
+        hx_verdict_add("C06", "body_bytes", "%s: delivered %s body (%zu bytes) \"%s\" differs from the %zu bytes sent", BT.desc, s ? "response" : "request", r->body[s].n, (char *) e.p, BT.n);
+    }
+    int64_t el = s ? tb->response_entity_len : tb->request_entity_len, ml = s ? tb->response_message_len : tb->request_message_len;
+    if (el != (int64_t) BT.n) hx_verdict_add("C06", "entity_len", "%s: entity_len=%lld, body has %zu bytes", BT.desc, (long long) el, BT.n);
+    if (ml < BT.mlmin || ml > BT.mlmax) hx_verdict_add("C06", "message_len", "%s: message_len=%lld, body took %lld..%lld bytes from the wire", BT.desc, (long long) ml, (long long) BT.mlmin, (long long) BT.mlmax);
+    if (!t1->request_uri || bstr_cmp_c(t1->request_uri, "/next") != 0) hx_verdict_add("C06", "next_message", "%s: the request after the body is not reported as /next", BT.desc);
+    if (t1->response_status_number != 201) hx_verdict_add("C06", "next_message", "%s: the response after the body is not reported with status 201 (got %d)", BT.desc, t1->response_status_number);
+    if (t0->response_status_number != 200) hx_verdict_add("C06", "next_message", "%s: first response status %d", BT.desc, t0->response_status_number);
+}
+static long body_counter;
+static void body_run(const hx_buf *q, const hx_buf *r, size_t reg_lo, size_t reg_hi, int pairs) {
+    /* uncut, all single cuts, pairs inside the framing region [reg_lo, reg_hi] (combined positions), 1-byte */
+    hx_script_init(&S); S.inspect = body_inspect; S.label = BT.desc;
+    static int pos[1 << 14]; int np = cx_all_positions(pos, q->n, r->n);
+    for (int a = -1; a < np; a++) {
+        int cuts[2]; int nc = 0; if (a >= 0) cuts[nc++] = pos[a];
+        cx_build(&S, q->p, q->n, r->p, r->n, cuts, nc, 1);
+        if (hx_run(&S, &O) == 0) { n_exec++; n_calls += O.ncalls; cx_set_add(&outcomes, hx_fnv(O.cbtrace.p, O.cbtrace.n, (uint64_t) body_counter)); hx_report_verdicts(&S, &O, PROPS); }
+        if (pairs && a >= 0 && (size_t) pos[a] >= reg_lo && (size_t) pos[a] <= reg_hi)
+            for (int b = a + 1; b < np && (size_t) pos[b] <= reg_hi; b++) {
+                cuts[0] = pos[a]; cuts[1] = pos[b];
+                cx_build(&S, q->p, q->n, r->p, r->n, cuts, 2, 1);
+                if (hx_run(&S, &O) == 0) { n_exec++; n_calls += O.ncalls; cx_set_add(&outcomes, hx_fnv(O.cbtrace.p, O.cbtrace.n, (uint64_t) body_counter)); hx_report_verdicts(&S, &O, PROPS); }
+            }
+    }
+    cx_build_uniform(&S, q->p, q->n, r->p, r->n, 1, 1);
+    if (hx_run(&S, &O) == 0) { n_exec++; n_calls += O.ncalls; hx_report_verdicts(&S, &O, PROPS); }
+}
+static void body_case(const uint8_t *body, size_t n, int extras) {
+    /* framings: request CL / chunked (every composition), response CL / chunked / close */
+    static hx_buf q, r; static char desc[200];
+    int ncomp = n > 5 ? 4 : (n == 0 ? 1 : 1 << (n - 1));
+    for (int side = 0; side < 2; side++) {
+        int nfr = side == 0 ? 2 : 3;
+        for (int fr = 0; fr < nfr; fr++) {
+            int comps = fr == 1 ? ncomp : 1;
+            for (int comp = 0; comp < comps; comp++) for (int ext = 0; ext < (fr == 1 && extras ? 2 : 1); ext++) for (int tr = 0; tr < (fr == 1 && extras ? 2 : 1); tr++) {
+                long id = body_counter++;
+                if (id % hx_shard_n != hx_shard_i || hx_deadline_hit()) continue;
+                hb_reset(&q); hb_reset(&r);
+                int sizes[16], ns = 0;
+                if (fr == 1) {
+                    if (n > 5) { /* fixed compositions for long bodies */
+                        if (comp == 0) { sizes[0] = (int) n; ns = 1; } else if (comp == 1) { sizes[0] = 1; sizes[1] = (int) n - 1; ns = 2; }
+                        else if (comp == 2) { sizes[0] = (int) n - 1; sizes[1] = 1; ns = 2; } else { sizes[0] = (int) (n / 2); sizes[1] = (int) (n - n / 2); ns = 2; }
+                    } else { int run = 1; for (size_t i = 1; i <= n; i++) { if (i == n || (comp >> (i - 1) & 1)) { sizes[ns++] = run; run = 1; } else run++; } }
+                }
+                size_t lo, hi; hx_buf *w = side == 0 ? &q : &r;
+                if (side == 0) { hb_puts(&q, "POST /first HTTP/1.1\r\nHost: h\r\n"); hb_puts(&r, "HTTP/1.1 200 OK\r\nContent-Length: 2\r\n\r\nokHTTP/1.1 201 Created\r\nContent-Length: 0\r\n\r\n"); }
+                else { hb_puts(&q, "GET /first HTTP/1.1\r\nHost: h\r\n\r\n"); hb_puts(&r, "HTTP/1.1 200 OK\r\n"); }
+                if (fr == 0) hb_printf(w, "Content-Length: %zu\r\n\r\n", n);
+                else if (fr == 1) hb_puts(w, "Transfer-Encoding: chunked\r\n\r\n");
+                else hb_puts(w, "\r\n");
+                lo = w->n >= 3 ? w->n - 3 : 0;
+                size_t before = w->n;
+                if (fr == 1) gx_chunked(w, body, n, sizes, ns, ext, tr); else hb_put(w, body, n);
+                size_t framed = w->n - before;
+                BT.side = side; BT.body = body; BT.n = n; BT.txi = (side == 1 && fr == 2) ? 1 : 0;
+                if (fr == 1) { size_t tail = 2 + (tr ? 9 : 0); BT.mlmin = (int64_t) (framed - tail); BT.mlmax = (int64_t) framed; } else BT.mlmin = BT.mlmax = (int64_t) n;
+                hi = w->n + 3;
+                if (side == 0) hb_puts(&q, "GET /next HTTP/1.1\r\nHost: h\r\n\r\n");
+                else {
+                    if (fr == 2) {
+                        /* close-delimited must be last: swap roles - first exchange plain, second carries the body */
+                        hb_reset(&r); hb_reset(&q);
+                        hb_puts(&q, "GET /first HTTP/1.1\r\nHost: h\r\n\r\nGET /next HTTP/1.1\r\nHost: h\r\n\r\n");
+                        hb_puts(&r, "HTTP/1.1 200 OK\r\nContent-Length: 2\r\n\r\nokHTTP/1.1 201 Created\r\n\r\n");
+                        lo = r.n - 3; hb_put(&r, body, n); hi = r.n;
+                    } else { hb_puts(&q, "GET /next HTTP/1.1\r\nHost: h\r\n\r\n"); hb_puts(&r, "HTTP/1.1 201 Created\r\nContent-Length: 0\r\n\r\n"); }
+                }
+                static hx_buf be; hb_reset(&be); hb_esc(&be, body, n > 40 ? 40 : n); hb_term(&be);
+                snprintf(desc, sizeof desc, "%s body \"%s\" framing=%s comp=%d ext=%d trailer=%d", side ? "response" : "request", (char *) be.p, fr == 0 ? "CL" : fr == 1 ? "chunked" : "close", comp, ext, tr);
+                BT.desc = desc;
+                if (side == 0) { lo += 0; hi += 0; } else { lo += q.n; hi += q.n; }
+                if (id % 997 == 0) hx_emit_sample(desc);
+                body_run(&q, &r, lo, hi, 1);
+            }
+        }
+    }
+}
+static void mode_body(int argc, char **argv) {
+    (void) argc; (void) argv;
+    int thorough = !strcmp(hx_tier, "thorough");
+    int maxlen = atoi(hx_arg(argc, argv, "--maxlen", thorough ? "5" : "4"));
+    static const uint8_t A[] = { '\r', '\n', 0, 'a', '0', ';' };
+    uint8_t b[8];
+    for (int len = 0; len <= maxlen; len++) {
+        int idx[8] = { 0 };
+        for (;;) {
+            for (int i = 0; i < len; i++) b[i] = A[idx[i]];
+            body_case(b, (size_t) len, 0);
+            int k = len - 1; while (k >= 0 && ++idx[k] == 6) idx[k--] = 0;
+            if (k < 0) break;
+        }
+    }
+    static const char *const LOOK[] = { "GET / HTTP/1.1\r\n\r\n", "HTTP/1.1 200 OK\r\n\r\n", "0\r\n\r\n", "5\r\nhello\r\n", "\r\n0\r\n\r\n", "POST /x HTTP/1.1\r\nContent-Length: 5\r\n\r\n",
+                                        "HTTP/1.1 100 Continue\r\n\r\n", "ffffffff\r\n", "\r\n\r\n", "1;x\r\nZ\r\n", "Content-Length: 0\r\n\r\n", "X" };
+    for (size_t i = 0; i < sizeof LOOK / sizeof LOOK[0]; i++) body_case((const uint8_t *) LOOK[i], strlen(LOOK[i]), 1);
+    hx_emit_stat("body_cases", hx_shard_i == 0 ? body_counter : 0);
+}
+
+/* ------------------------------------------------------------------ pair mode (C04) --------- */
+/* a chunk of one direction: which messages begin / end inside it, and which first lines it completes */
+typedef struct pchunk { const uint8_t *d; uint32_t n; uint8_t starts, ends, lines, lo, mstarts; } pchunk;   /* mstarts: messages that begin inside the chunk but not at its first byte */
+static struct { int N; int expect_pipelined; int partial_line_class; int partial_res_class; char desc[200]; } PT;
+static void pair_inspect(htp_connp_t *c, hx_obs *o, void *ctx) {
+    (void) ctx;
+    size_t n = htp_list_size(c->conn->transactions);
+    if ((int) n != PT.N) { hx_verdict_add("C04", "tx_count", "%s: %d exchanges sent, %zu transactions reported", PT.desc, PT.N, n); return; }
+    for (int i = 0; i < PT.N; i++) {
+        htp_tx_t *tx = htp_list_get(c->conn->transactions, (size_t) i);
+        if (!tx) { hx_verdict_add("C04", "tx_missing", "%s: slot %d empty", PT.desc, i); continue; }
+        char want[32]; snprintf(want, sizeof want, "/id-%d", i + 1);
+        if (!tx->request_uri || bstr_cmp_c(tx->request_uri, want) != 0) hx_verdict_add("C04", "order", "%s: transaction %d does not carry request %s", PT.desc, i, want);
+        htp_header_t *h = tx->response_headers ? htp_table_get_c(tx->response_headers, "x-id") : NULL;
+        char idv[8]; snprintf(idv, sizeof idv, "%d", i + 1);
+        if (!h || bstr_cmp_c(h->value, idv) != 0) hx_verdict_add("C04", "pairing", "%s: transaction %d (request %s) got a response whose X-Id is not %s", PT.desc, i, want, idv);
+        int ord = (int) (intptr_t) htp_tx_get_user_data(tx) - 1;
+        if (ord >= 0 && ord < o->ntx) {
+            char wb[16]; snprintf(wb, sizeof wb, "id-%d", i + 1);
+            const hx_buf *b = &o->tx[ord].body[1];
+            if (b->n != strlen(wb) || memcmp(b->p, wb, b->n)) hx_verdict_add("C04", "pairing_body", "%s: transaction %d got a response body that is not %s", PT.desc, i, wb);
+        }
+        if (tx->request_progress != HTP_REQUEST_COMPLETE || tx->response_progress != HTP_RESPONSE_COMPLETE) hx_verdict_add("C04", "incomplete", "%s: transaction %d not complete (%d/%d)", PT.desc, i, tx->request_progress, tx->response_progress);
+    }
+    int got = (c->conn->flags & HTP_CONN_PIPELINED) != 0;
+    if (got != PT.expect_pipelined) {
+        if (!got && PT.partial_line_class)
+            hx_verdict_add("C04", "pipelined_missed_partial_line", "%s: a request was started (its first line only partly delivered) before the previous response began, indicator not set", PT.desc);
+        else if (got && PT.partial_res_class)
+            hx_verdict_add("C04", "pipelined_spurious_partial_line", "%s: a response had begun (its status line only partly delivered, in the chunk that ended the previous response) before the next request started, indicator set", PT.desc);
+        else
+            hx_verdict_add("C04", got ? "pipelined_spurious" : "pipelined_missed", "%s: pipelining indicator is %d, schedule says %d", PT.desc, got, PT.expect_pipelined);
+    }
+}
+static pchunk PQ[24], PR[24]; static int NPQ, NPR;
+static uint8_t psched[64];
+static void pair_exec(int len) {
+    hx_script_init(&S); S.inspect = pair_inspect; S.label = PT.desc;
+    /* what the schedule implies for the indicator, computed without looking at the parser */
+    int qi = 0, ri = 0, expect = 0, partial = 0, partial_res = 0;
+    unsigned res_started = 0, req_started_early = 0, line_done = 0, res_began_while_open = 0, res_merged_open = 0, res_line_done = 0;
+    for (int k = 0; k < len; k++) {
+        if (psched[k] == 0) {
+            const pchunk *c = &PQ[qi++];
+            for (int j = 1; j < PT.N; j++) if ((c->starts >> j & 1) && !(res_started >> (j - 1) & 1)) { expect = 1; if (c->mstarts >> j & 1) req_started_early |= 1u << j; }
+            /* request j starts while response j-1 has begun only as a partial status line glued to the end of response j-2 */
+            for (int j = 1; j < PT.N; j++) if ((c->starts >> j & 1) && (res_merged_open >> (j - 1) & 1) && !(res_line_done >> (j - 1) & 1)) partial_res = 1;
+            line_done |= c->lines;
+            for (int j = 1; j < PT.N; j++) if ((c->lines >> j & 1) && (req_started_early >> j & 1) && (res_began_while_open >> j & 1)) partial = 1;
+            hx_script_add(&S, OP_Q, c->d, c->n);
+        } else {
+            const pchunk *c = &PR[ri++];
+            res_line_done |= c->lines;
+            for (int j = 0; j < PT.N; j++) if (c->starts >> j & 1) {
+                res_started |= 1u << j;
+                if ((c->mstarts >> j & 1) && !(c->lines >> j & 1)) res_merged_open |= 1u << j;
+                /* request j+1 already started but its first line is still open when response j begins */
+                if (j + 1 < PT.N && (req_started_early >> (j + 1) & 1) && !(line_done >> (j + 1) & 1)) res_began_while_open |= 1u << (j + 1);
+            }
+            hx_script_add(&S, OP_S, c->d, c->n);
+        }
+    }
+    hx_script_add(&S, OP_CLOSE, NULL, 0);
+    PT.expect_pipelined = expect; PT.partial_line_class = partial; PT.partial_res_class = partial_res;
+    if (hx_run(&S, &O)) return;
+    n_exec++; n_calls += O.ncalls; cx_set_add(&outcomes, hx_fnv(O.cbtrace.p, O.cbtrace.n, 0));
+    hx_report_verdicts(&S, &O, PROPS);
+}
+static long pair_scheds;
+static void pair_dfs(int qi, int ri, int len) {
+    if (qi == NPQ && ri == NPR) { pair_scheds++; pair_exec(len); return; }
+    if (qi < NPQ) { psched[len] = 0; pair_dfs(qi + 1, ri, len + 1); }
+    if (ri < NPR) {
+        /* legal: a response chunk reaching into response m only after every byte of requests <= m has been offered */
+        int mhi = 0; for (int j = 0; j < 8; j++) if ((PR[ri].starts | PR[ri].ends) >> j & 1) mhi = j;
+        if (PR[ri].lo > mhi) mhi = PR[ri].lo;
+        unsigned ended = 0; for (int k = 0; k < qi; k++) ended |= PQ[k].ends;
+        int done = 1; for (int j = 0; j <= mhi; j++) if (!(ended >> j & 1)) done = 0;
+        if (done) { psched[len] = 1; pair_dfs(qi, ri + 1, len + 1); }
+    }
+}
+/* cut one direction's stream: per message an inner cut choice (0 none, 1 mid first line, 2 after first CRLF, 3 one
+ * byte before the end) and whether the boundary to the next message is a chunk boundary */
+static int build_chunks(pchunk *out, hx_buf *stream, hx_buf *msgs, int N, const int *inner, const int *bcut) {
+    hb_reset(stream);
+    size_t start[4], end[4], l1[4];
+    for (int i = 0; i < N; i++) { start[i] = stream->n; hb_put(stream, msgs[i].p, msgs[i].n); end[i] = stream->n; const uint8_t *lf = memchr(msgs[i].p, '\n', msgs[i].n); l1[i] = start[i] + (lf ? (size_t) (lf - msgs[i].p) + 1 : msgs[i].n); }
+    size_t cuts[16]; int nc = 0;
+    for (int i = 0; i < N; i++) {
+        size_t c = 0;
+        if (inner[i] == 1) c = start[i] + (l1[i] - start[i]) / 2; else if (inner[i] == 2) c = l1[i]; else if (inner[i] == 3) c = end[i] - 1;
+        if (c > start[i] && c < end[i]) cuts[nc++] = c;
+        if (i < N - 1 && bcut[i]) cuts[nc++] = end[i];
+    }
+    cuts[nc++] = stream->n;
+    int n = 0; size_t prev = 0;
+    for (int k = 0; k < nc; k++) {
+        if (cuts[k] <= prev) continue;
+        pchunk *c = &out[n++]; memset(c, 0, sizeof *c);
+        c->d = stream->p + prev; c->n = (uint32_t) (cuts[k] - prev);
+        c->lo = 0;
+        for (int i = 0; i < N; i++) {
+            if (start[i] >= prev && start[i] < cuts[k]) c->starts |= (uint8_t) (1u << i);
+            if (start[i] > prev && start[i] < cuts[k]) c->mstarts |= (uint8_t) (1u << i);
+            if (end[i] > prev && end[i] <= cuts[k]) c->ends |= (uint8_t) (1u << i);
+            if (l1[i] > prev && l1[i] <= cuts[k]) c->lines |= (uint8_t) (1u << i);
+            if (start[i] < cuts[k] && end[i] > prev) c->lo = (uint8_t) i;      /* highest message touched */
+        }
+        prev = cuts[k];
+    }
+    return n;
+}
+static void mode_pair(int argc, char **argv) {
+    int thorough = !strcmp(hx_tier, "thorough");
+    int maxN = atoi(hx_arg(argc, argv, "--maxn", "3"));
+    long combo = 0;
+    static hx_buf SQ, SR;
+    for (int N = 1; N <= maxN; N++) {
+        int nqf = 3, nsf = 2;
+        int ncut = (N <= 2 || thorough) ? 4 : 2;          /* N=3 quick: whole or mid-line only */
+        long nframe = 1; for (int i = 0; i < N; i++) nframe *= nqf * nsf;
+        if (N == 3) nframe = thorough ? 12 : 3;            /* fixed framing mixes for N=3 */
+        for (long fm = 0; fm < nframe; fm++) {
+            static hx_buf mq[3], mr[3]; int qf[3], sf[3]; long t = fm;
+            for (int i = 0; i < N; i++) {
+                if (N == 3) { qf[i] = (int) ((fm + i) % 3); sf[i] = (int) ((fm / 3 + i) % 2); }
+                else { qf[i] = (int) (t % nqf); t /= nqf; sf[i] = (int) (t % nsf); t /= nsf; }
+                hb_reset(&mq[i]); hb_reset(&mr[i]);
+                char idb[16]; snprintf(idb, sizeof idb, "id-%d", i + 1); int z[1] = { (int) strlen(idb) };
+                if (qf[i] == 0) hb_printf(&mq[i], "GET /id-%d HTTP/1.1\r\nHost: h\r\n\r\n", i + 1);
+                else if (qf[i] == 1) hb_printf(&mq[i], "POST /id-%d HTTP/1.1\r\nHost: h\r\nContent-Length: %d\r\n\r\n%s", i + 1, z[0], idb);
+                else { hb_printf(&mq[i], "POST /id-%d HTTP/1.1\r\nHost: h\r\nTransfer-Encoding: chunked\r\n\r\n", i + 1); gx_chunked(&mq[i], (const uint8_t *) idb, (size_t) z[0], z, 1, 0, 0); }
+                if (sf[i] == 0) hb_printf(&mr[i], "HTTP/1.1 200 OK\r\nX-Id: %d\r\nContent-Length: %d\r\n\r\n%s", i + 1, z[0], idb);
+                else { hb_printf(&mr[i], "HTTP/1.1 200 OK\r\nX-Id: %d\r\nTransfer-Encoding: chunked\r\n\r\n", i + 1); gx_chunked(&mr[i], (const uint8_t *) idb, (size_t) z[0], z, 1, 0, 0); }
+            }
+            /* chunkings: inner cut per message (ncut choices) x boundary cut per inner boundary (2 choices), both directions */
+            long nchunkings = 1; for (int i = 0; i < 2 * N; i++) nchunkings *= ncut; for (int i = 0; i < 2 * (N - 1); i++) nchunkings *= 2;
+            for (long ck = 0; ck < nchunkings; ck++) {
+                long id = combo++;
+                if (id % hx_shard_n != hx_shard_i || hx_deadline_hit()) continue;
+                long u = ck; int iq[3], ir[3], bq[3] = { 1, 1, 1 }, br[3] = { 1, 1, 1 };
+                for (int i = 0; i < N; i++) { iq[i] = (int) (u % ncut); u /= ncut; }
+                for (int i = 0; i < N; i++) { ir[i] = (int) (u % ncut); u /= ncut; }
+                for (int i = 0; i < N - 1; i++) { bq[i] = (int) (u & 1); u >>= 1; }
+                for (int i = 0; i < N - 1; i++) { br[i] = (int) (u & 1); u >>= 1; }
+                NPQ = build_chunks(PQ, &SQ, mq, N, iq, bq);
+                NPR = build_chunks(PR, &SR, mr, N, ir, br);
+                PT.N = N;
+                snprintf(PT.desc, sizeof PT.desc, "N=%d framings q=%d%d%d s=%d%d%d chunking #%ld", N, qf[0], N > 1 ? qf[1] : 9, N > 2 ? qf[2] : 9, sf[0], N > 1 ? sf[1] : 9, N > 2 ? sf[2] : 9, ck);
+                if (id % 20000 == 0) hx_emit_sample(PT.desc);
+                pair_dfs(0, 0, 0);
+            }
+        }
+    }
+    hx_emit_stat("schedules", pair_scheds);
+}
+
 static int worker(int argc, char **argv) {
     PROPS = hx_arg(argc, argv, "--props", "C03");
     const char *mode = hx_arg(argc, argv, "--mode", "seg");
     if (!strcmp(mode, "seg")) mode_seg(argc, argv);
     else if (!strcmp(mode, "gen")) mode_gen(argc, argv);
+    else if (!strcmp(mode, "body")) mode_body(argc, argv);
+    else if (!strcmp(mode, "pair")) mode_pair(argc, argv);
     else { fprintf(stderr, "cutmc: unknown mode %s\n", mode); return 2; }
     hx_emit_stat("executions", n_exec); hx_emit_stat("calls", n_calls); hx_emit_stat("distinct_outcomes", (long long) outcomes.cnt);
     return 0;
